@@ -440,6 +440,7 @@ func c07Completeness(c *Ctx, F *model.Fields) {
 	if sc == nil {
 		return
 	}
+	mergesAccumulate(c, "C07.R4")
 	sa := c.P.Func(load.ModPath, "(*Policy).sanitizeAttrs")
 	mr := c.P.Func(load.ModPath, "(*Policy).matchRegex")
 	A := sc.A
@@ -513,4 +514,63 @@ func c07Completeness(c *Ctx, F *model.Fields) {
 func valueOf(in ssa.Instruction) ssa.Value {
 	v, _ := in.(ssa.Value)
 	return v
+}
+
+// mergesAccumulate: where the rules of several matching element patterns are merged into one per-call table
+// (matchRegex for attributes, sanitizeStyles for styles) every update has the form m[k] = append(m[k], rules...):
+// an assignment m[k] = rules would make one pattern's rules replace another's for the same attribute / property.
+func mergesAccumulate(c *Ctx, rule string) {
+	R := c.R
+	n := 0
+	for _, name := range []string{"(*Policy).matchRegex", "(*Policy).sanitizeStyles"} {
+		fn := c.P.Func(load.ModPath, name)
+		if fn == nil {
+			continue
+		}
+		cnt := 0
+		for _, l := range model.RangeLoopsAll(fn) {
+			if !l.IsMap {
+				continue
+			}
+			for _, b := range sortedBlocks(l.Blocks) {
+				for _, in := range b.Instrs {
+					mu, ok := in.(*ssa.MapUpdate)
+					if !ok {
+						continue
+					}
+					// only updates whose value is a rule list
+					st, ok := mu.Value.Type().Underlying().(*types.Slice)
+					if !ok {
+						continue
+					}
+					if nt, ok := st.Elem().(*types.Named); !ok || (nt.Obj().Name() != "attrPolicy" && nt.Obj().Name() != "stylePolicy") {
+						continue
+					}
+					// count each update once (it sits in the innermost loop and in every enclosing one)
+					inner := true
+					for _, l2 := range model.RangeLoopsAll(fn) {
+						if l2.Header != l.Header && l.Blocks[l2.Header] && l2.Blocks[b] {
+							inner = false
+						}
+					}
+					if !inner {
+						continue
+					}
+					n++
+					cnt++
+					okAcc := false
+					if ac, base := model.IsAppend(mu.Value); ac != nil {
+						lk, _ := base.(*ssa.Lookup)
+						if ex, isEx := base.(*ssa.Extract); isEx {
+							lk, _ = ex.Tuple.(*ssa.Lookup)
+						}
+						okAcc = lk != nil && lk.X == mu.Map && lk.Index == mu.Key
+					}
+					R.Check(okAcc, rule, fmt.Sprintf("merge:%s#%d", pa.CalleeName(fn), cnt), pa.CalleeName(fn)+": merge of pattern rules into the per-call table", c.P.Pos(mu.Pos()),
+						"m[k] = append(m[k], rules...)", "the rules of one matching pattern replace those of another for the same key instead of being added to them")
+				}
+			}
+		}
+	}
+	R.Role(rule, "merges of pattern rules", n, 2)
 }
